@@ -1,8 +1,145 @@
 import PyresampleModel.Model.C20
+import PyresampleModel.Proofs.Num
 
 /-
-  C20 — property theorems (stub: none yet).
+  C20 — property theorems: CF, rasterio, odc-geo and cartopy conversions preserve the grid.
 -/
 namespace PyresampleModel.C20
+open PyresampleModel.Grid
+
+theorem aux_sign_spacing (d : Rat) (hd : d ≠ 0) : d / absQ d * (1/2) * absQ d = d / 2 := by
+  have : absQ d ≠ 0 := by
+    unfold absQ; split
+    · exact hd
+    · exact neg_ne_zero.mpr hd
+  field_simp
+
+theorem aux_axis_x (g : Grid) (hw : 2 ≤ g.w) (hdx : g.dx ≠ 0) :
+    axisInfo (xvec g) = some { first := g.projX 0, last := g.projX ((g.w : Rat) - 1), nb := g.w,
+                               spacing := absQ g.dx, sign := g.dx / absQ g.dx } := by
+  have hlen : (xvec g).length = g.w := by simp [xvec]
+  have hhead : (xvec g).head? = some (g.projX 0) := by
+    simp only [xvec, List.head?_map]
+    have : (List.range g.w).head? = some 0 := by
+      cases hg : g.w with
+      | zero => omega
+      | succ n => simp [List.range_succ_eq_map]
+    rw [this]; simp
+  have hlast : (xvec g).getLast? = some (g.projX ((g.w : Rat) - 1)) := by
+    simp only [xvec, List.getLast?_map]
+    have : (List.range g.w).getLast? = some (g.w - 1) := by
+      cases hg : g.w with
+      | zero => omega
+      | succ n => simp [List.range_succ]
+    rw [this]
+    simp only [Option.map_some, Option.some.injEq]
+    congr 1
+    rw [Nat.cast_sub (by omega)]; simp
+  have w1 : (g.w : Rat) - 1 ≠ 0 := by
+    have : (2 : Rat) ≤ g.w := by exact_mod_cast hw
+    linarith
+  have hdelta : (g.projX ((g.w : Rat) - 1) - g.projX 0) / ((g.w : Rat) - 1) = g.dx := by
+    simp only [Grid.projX]; field_simp; ring
+  simp only [axisInfo, hhead, hlast, hlen]
+  rw [if_neg (by omega), hdelta, if_neg hdx]
+
+theorem aux_axis_y (g : Grid) (hh : 2 ≤ g.h) (hdy : g.dy ≠ 0) :
+    axisInfo (yvec g) = some { first := g.projY 0, last := g.projY ((g.h : Rat) - 1), nb := g.h,
+                               spacing := absQ (-g.dy), sign := (-g.dy) / absQ (-g.dy) } := by
+  have hlen : (yvec g).length = g.h := by simp [yvec]
+  have hhead : (yvec g).head? = some (g.projY 0) := by
+    simp only [yvec, List.head?_map]
+    have : (List.range g.h).head? = some 0 := by
+      cases hg : g.h with
+      | zero => omega
+      | succ n => simp [List.range_succ_eq_map]
+    rw [this]; simp
+  have hlast : (yvec g).getLast? = some (g.projY ((g.h : Rat) - 1)) := by
+    simp only [yvec, List.getLast?_map]
+    have : (List.range g.h).getLast? = some (g.h - 1) := by
+      cases hg : g.h with
+      | zero => omega
+      | succ n => simp [List.range_succ]
+    rw [this]
+    simp only [Option.map_some, Option.some.injEq]
+    congr 1
+    rw [Nat.cast_sub (by omega)]; simp
+  have h1 : (g.h : Rat) - 1 ≠ 0 := by
+    have : (2 : Rat) ≤ g.h := by exact_mod_cast hh
+    linarith
+  have hdelta : (g.projY ((g.h : Rat) - 1) - g.projY 0) / ((g.h : Rat) - 1) = -g.dy := by
+    simp only [Grid.projY]; field_simp; ring
+  simp only [axisInfo, hhead, hlast, hlen]
+  rw [if_neg (by omega), hdelta, if_neg (neg_ne_zero.mpr hdy)]
+
+/-- **CF round trip**: for every grid with at least 2 columns and rows and non-zero pixel sizes of
+either sign (north-to-south or south-to-north rows, ascending or descending x), loading the CF
+export (the pixel-centre coordinate vectors as stored) gives back exactly the same extent and
+shape — pixel (r, c) of the loaded area is located where element (r, c) of the stored array is -/
+theorem cf_roundtrip (g : Grid) (hw : 2 ≤ g.w) (hh : 2 ≤ g.h) (hdx : g.dx ≠ 0) (hdy : g.dy ≠ 0) :
+    cfRoundTrip (xvec g) (yvec g) = some g := by
+  have w2 : (2 : Rat) ≤ g.w := by exact_mod_cast hw
+  have h2 : (2 : Rat) ≤ g.h := by exact_mod_cast hh
+  have wq : (g.w : Rat) ≠ 0 := by linarith
+  have hq : (g.h : Rat) ≠ 0 := by linarith
+  have ewx : (g.w : Rat) * g.dx = g.x1 - g.x0 := by unfold Grid.dx; field_simp
+  have ehy : (g.h : Rat) * g.dy = g.y1 - g.y0 := by unfold Grid.dy; field_simp
+  simp only [cfRoundTrip, aux_axis_x g hw hdx, aux_axis_y g hh hdy, cfExtent, Option.some.injEq]
+  rw [aux_sign_spacing g.dx hdx, aux_sign_spacing (-g.dy) (neg_ne_zero.mpr hdy)]
+  cases hg : g
+  simp only [hg] at ewx ehy
+  simp only [Grid.projX, Grid.projY, Grid.uplx, Grid.uply, Grid.mk.injEq, and_true]
+  refine ⟨by ring, by linarith, by linarith, by ring⟩
+
+/-- storing the rows south-to-north is storing the grid with its y extent swapped: the stored y
+vector is the reverse — so by `cf_roundtrip` the loaded area is the original with its rows reversed -/
+theorem cf_rows_reversed (g : Grid) (hh : g.h ≠ 0) :
+    yvec { g with y0 := g.y1, y1 := g.y0 } = (yvec g).reverse := by
+  have hq : (g.h : Rat) ≠ 0 := by exact_mod_cast hh
+  apply List.ext_getElem?
+  intro k
+  have hlen : (yvec g).length = g.h := by simp [yvec]
+  by_cases hk : k < g.h
+  · have h2 : g.h - 1 - k < g.h := by omega
+    rw [List.getElem?_reverse (by rw [hlen]; exact hk), hlen]
+    simp only [yvec, List.getElem?_map, List.getElem?_range hk, List.getElem?_range h2, Option.map_some, Option.some.injEq]
+    have e : ((g.h - 1 - k : Nat) : Rat) = (g.h : Rat) - 1 - k := by
+      rw [Nat.cast_sub (by omega), Nat.cast_sub (by omega)]; simp
+    rw [e]
+    simp only [Grid.projY, Grid.uply, Grid.dy]
+    field_simp; ring
+  · rw [List.getElem?_eq_none (by simp [yvec]; omega), List.getElem?_eq_none (by simp [yvec]; omega)]
+
+/-- **unit scale**: scaling both axes (km → m, or radians → metres for geostationary) scales the extent -/
+theorem cf_unit_scale (k : Rat) (x y : Axis) :
+    cfExtent (scaleAxis k x) (scaleAxis k y) =
+      (k * (cfExtent x y).1, k * (cfExtent x y).2.1, k * (cfExtent x y).2.2.1, k * (cfExtent x y).2.2.2) := by
+  simp only [cfExtent, scaleAxis, Prod.mk.injEq]
+  refine ⟨by ring, by ring, by ring, by ring⟩
+
+/-- **rasterio round trip**: bounds computed from the area's own affine transform are its extent -/
+theorem raster_roundtrip (g : Grid) (hw : g.w ≠ 0) (hh : g.h ≠ 0) : rasterRoundTrip g = g := by
+  obtain ⟨x0, y0, x1, y1, w, h⟩ := g
+  simp only at hw hh
+  have wq : (w : Rat) ≠ 0 := by exact_mod_cast hw
+  have hq : (h : Rat) ≠ 0 := by exact_mod_cast hh
+  simp only [rasterRoundTrip, rasterBounds, affineOf, Grid.dx, Grid.dy, Grid.mk.injEq, and_true, true_and]
+  constructor
+  · field_simp; ring
+  · field_simp; ring
+
+/-- **odc-geo**: the GeoBox affine maps array corner (0, 0) to (xmin, ymax) and (w, h) to (xmax, ymin) -/
+theorem odc_corners (g : Grid) (hw : g.w ≠ 0) (hh : g.h ≠ 0) :
+    let (a, _, c, _, e, f) := odcAffine g
+    (a * 0 + c = g.x0 ∧ e * 0 + f = g.y1) ∧ (a * g.w + c = g.x1 ∧ e * g.h + f = g.y0) := by
+  have wq : (g.w : Rat) ≠ 0 := by exact_mod_cast hw
+  have hq : (g.h : Rat) ≠ 0 := by exact_mod_cast hh
+  simp only [odcAffine, Grid.dx, Grid.dy]
+  refine ⟨⟨by ring, by ring⟩, ⟨by field_simp; ring, by field_simp; ring⟩⟩
+
+/-- **cartopy**: bounds are (xmin, xmax, ymin, ymax) of the extent -/
+theorem cartopy_bounds_order (g : Grid) : cartopyBounds g = (g.x0, g.x1, g.y0, g.y1) := rfl
+
+example : cfRoundTrip (xvec ⟨0, 0, 4, 3, 4, 3⟩) (yvec ⟨0, 0, 4, 3, 4, 3⟩) = some ⟨0, 0, 4, 3, 4, 3⟩ := by decide +kernel
 
 end PyresampleModel.C20
